@@ -45,6 +45,7 @@ partial def expandAlias : Ty → Ty
   | .typ t => .typ (expandAlias t)
   | .sensitive t => .sensitive (expandAlias t)
   | .iterable t => .iterable (expandAlias t)
+  | .iterator t => .iterator (expandAlias t)
   | t => t
 
 def unsafeKey (s : String) : Bool := s.any fun c => c == '\'' || c == '\n' || c == '\r'
@@ -55,7 +56,7 @@ partial def tyUnsafe : Ty → Bool
   | .tuple ts _ => ts.any tyUnsafe
   | .struct ms => ms.any fun m => unsafeKey m.1 || tyUnsafe m.2.2
   | .variant ts => ts.any tyUnsafe
-  | .optional t | .notUndef t | .typ t | .sensitive t | .iterable t => tyUnsafe t
+  | .optional t | .notUndef t | .typ t | .sensitive t | .iterable t | .iterator t => tyUnsafe t
   | _ => false
 
 def pkTag : PK → String
